@@ -268,7 +268,10 @@ where
             .saturating_sub(self.font.character_spacing);
 
         let bb_height = if self.underline_color != DecorationColor::None {
-            self.font.underline.height + self.font.underline.offset
+            // The underline can be inside the character cell, which is always filled completely
+            // if a background color is set.
+            (self.font.underline.height + self.font.underline.offset)
+                .max(self.font.character_size.height)
         } else {
             self.font.character_size.height
         };
